@@ -168,12 +168,16 @@ def overlap_stats(recs):
     return overl, hit_vs_mut, switches
 
 
-def judge_lines(cs, recs, fast):
+def judge_lines(cs, recs, fast, search=None):
     ls = [f"new thread {cs['limit']}"]
     for r in recs:
         ls.append(f"R {r['tid']} {r['idx']} {r['inv']} {r['res']} {'-' if r['lin'] is None else r['lin']} {r['result']} ; {r['op']}")
-    ls.append("endfast" if fast else "end")
+    ls.append(f"endsearch {search}" if search else ("endfast" if fast else "end"))
     return ls
+
+
+SEARCH_MAX_OPS = 80       # histories up to this size are also given to the hook-independent search
+SEARCH_BUDGET = 300000
 
 
 def run_cases(c, hbin, model, cases, label, env=None, flags=None, judge=True, timeout=1500):
@@ -211,14 +215,25 @@ def run_cases(c, hbin, model, cases, label, env=None, flags=None, judge=True, ti
         recs, errs, final = parse_records(o)
         fast = len(recs) > 260
         ls = judge_lines(cs, recs, fast)
-        where.append((cs, recs, errs, len(jl) + len(ls) - 1, fast))
+        pos = len(jl) + len(ls) - 1
         jl += ls
+        spos = None
+        if len(recs) <= SEARCH_MAX_OPS and all(r["res"] for r in recs):
+            ls2 = judge_lines(cs, recs, False, SEARCH_BUDGET)
+            spos = len(jl) + len(ls2) - 1
+            jl += ls2
+        where.append((cs, recs, errs, pos, fast, spos))
     rc, jout, jerr = c.run_lines(model, jl, timeout=timeout)
     if rc != 0 or len(jout) != len(jl):
         c.broke(f"model driver on stream {label}", f"rc={rc} {len(jout)}/{len(jl)} lines {jerr[-1500:]}")
         return histories
-    for cs, recs, errs, pos, fast in where:
+    for cs, recs, errs, pos, fast, spos in where:
         verdict = jout[pos]
+        sverdict = jout[spos] if spos is not None else None
+        sc = c.extra_cov.setdefault("hook_independent_search", {"histories": 0, "linearization_found": 0, "none_exists": 0, "budget_exhausted": 0})
+        if sverdict is not None:
+            sc["histories"] += 1
+            sc["linearization_found" if sverdict == "1" else ("budget_exhausted" if sverdict.startswith("?") else "none_exists")] += 1
         c.traces_validated += 1
         pr = py_realtime(recs)
         ov, hm, sw = overlap_stats(recs)
@@ -235,13 +250,17 @@ def run_cases(c, hbin, model, cases, label, env=None, flags=None, judge=True, ti
         if errs:
             bad = "harness anomaly: " + errs[0]
         elif verdict != "1":
-            bad = "recorded history is not linearized by the hook order: " + verdict
+            bad = "recorded history is not linearized by the hook order: " + verdict + \
+                  {None: "", "1": " [some other order linearizes it: the effect did not happen where the hook says]"}.get(
+                      sverdict, " [hook-independent search: " + str(sverdict) + "]")
+        elif sverdict is not None and sverdict.startswith("0"):
+            bad = "hook-independent search contradicts the hook-order judge: " + sverdict
         elif pr:
             bad = pr
         if bad:
             c.violation(bad + f" (stream {label})",
                         {"case": cs["name"], "case_lines": harness_input(cs), "history": [r["line"] for r in recs],
-                         "judge_verdict": verdict, "replay_cmd": "bin/check C09 --replay <this file>"})
+                         "judge_verdict": verdict, "search_verdict": sverdict, "replay_cmd": "bin/check C09 --replay <this file>"})
         if len(c.samples) < 4 and hm > 0 and len(recs) < 40:
             c.samples.append({"case": cs["name"], "threads": cs["nthreads"], "limit": cs["limit"],
                               "history_in_hook_order": [r["line"] for r in sorted(recs, key=lambda r: r["lin"] or 0)][:40],
